@@ -701,12 +701,16 @@ class Model:
         if isinstance(val, Opaque):
             return self.new(interp, None, unit, dtype, why=val.why)
         if isinstance(val, bool | int | float | F):
+            var = a.get('variance')
             t = Rat.const(val) * (unit.scale() if unit is not None else 1)
             if _is_nan(val):
                 t = Rat.const(val)
             if unit is not None and unit.param_syms() and not t.is_zero() and not _is_nan(val):
                 interp.event('literal-with-input-unit', node, value=repr(val), unit=repr(unit), stmt=_text(node))
-            return self.new(interp, t if unit is not None else None, unit, dtype or py_dtype(val), why='unit unknown')
+            r = self.new(interp, t if unit is not None else None, unit, dtype or py_dtype(val), why='unit unknown')
+            r.members['variance'] = var
+            r.members['value'] = val
+            return r
         if isinstance(val, str):
             return self.new(interp, None, unit, 'string', why='string scalar')
         return self.new(interp, None, unit, dtype or 'PyObject', why='object scalar')
